@@ -248,10 +248,16 @@ func (s *stub) GetVertex(ctx context.Context, in *protobufcompiled.SignedHash, o
 }
 
 // GossiperOK is the harness's own check of one gossiper entry: signature of that address over address|item hash.
-func (n *Net) GossiperOK(g *protobufcompiled.Gossiper, item H) bool {
+func (n *Net) GossiperOK(g *protobufcompiled.Gossiper, item H) (ok bool) {
 	if g == nil || len(g.Digest) != 32 {
 		return false
 	}
+	// (the address decoder is the code under test's: whatever it does with a malformed address, the reference says "no")
+	defer func() {
+		if recover() != nil {
+			ok = false
+		}
+	}()
 	msg := append([]byte(g.Address), item[:]...)
 	d := sha256.Sum256(msg)
 	var dg H
